@@ -294,4 +294,9 @@ theorem full_makes_room (a : Arc κ ν) (hitB2 : Bool) (h : a.Inv) (hfull : a.re
 /-- non-vacuity: size 1, `put a, put b, put a` ends with exactly one resident entry (the pre-repair code kept two) -/
 example : (ArcSpec.put ⟨[(2, 20)], [], [(1, 10)], [], 0⟩ 1 1 (11 : Nat)).1.t1 = [] ∧
           (ArcSpec.put ⟨[(2, 20)], [], [(1, 10)], [], 0⟩ 1 1 (11 : Nat)).1.t2 = [(1, 11)] := by decide
+
+/-- non-vacuity of `Inv`: an ARC state with both ghost lists populated and `p = 1` -/
+example : ({ size := 2, p := 1, recent := ⟨2, [(1, 10)], false⟩, frequent := ⟨2, [(2, 20)], false⟩,
+             recentEvict := ⟨2, [(3, 30)], false⟩, frequentEvict := ⟨2, [(4, 40)], false⟩ } : Arc Nat Nat).Inv := by
+  constructor <;> decide
 end C09
